@@ -74,6 +74,7 @@ func init() {
 	// library leaves
 	reg("new", Leaf, 1, nil, ix(0), true, 4)
 	reg("newf", Leaf, 3, ix(1), ix(0, 2), true, 4)
+	reg("newf0", Leaf, 1, nil, ix(0), true, 1) // a format (with escaped %) and NO arguments
 	reg("assertf", Leaf, 2, ix(1), ix(0), true, 2)
 	reg("unimpl", Leaf, 3, ix(0), ix(1, 2), true, 2)
 	reg("unimpld", Leaf, 2, ix(0), ix(1), true, 1) // issue link with a detail but no URL
@@ -104,6 +105,8 @@ func init() {
 	reg("wrap", Wrap, 1, nil, ix(0), true, 4)
 	reg("wrapempty", Wrap, 0, nil, nil, true, 1)
 	reg("wrapf", Wrap, 2, ix(1), ix(0), true, 3)
+	reg("wrapf0", Wrap, 1, nil, ix(0), true, 1)    // a format (with escaped %) and NO arguments
+	reg("withmsgf0", Wrap, 1, nil, ix(0), true, 1) // id.
 	reg("withmsg", Wrap, 1, nil, ix(0), true, 2)
 	reg("withmsgf", Wrap, 2, ix(1), ix(0), true, 1)
 	reg("withstack", Wrap, 0, nil, nil, true, 2)
@@ -254,6 +257,8 @@ func Build1(n *Node, m Built) error {
 		return errors.New(S[0])
 	case "newf":
 		return errors.Newf("%s "+esc(S[0])+" %s", S[1], errors.Safe(S[2]))
+	case "newf0":
+		return errors.Newf(esc(S[0]) + " 100%%")
 	case "assertf":
 		return errors.AssertionFailedf(esc(S[0])+" %s", S[1])
 	case "unimpl":
@@ -312,6 +317,10 @@ func Build1(n *Node, m Built) error {
 		return errors.Wrap(kids[0], "")
 	case "wrapf":
 		return errors.Wrapf(kids[0], esc(S[0])+" %s", S[1])
+	case "wrapf0":
+		return errors.Wrapf(kids[0], esc(S[0])+" 100%%")
+	case "withmsgf0":
+		return errors.WithMessagef(kids[0], esc(S[0])+" 100%%")
 	case "withmsg":
 		return errors.WithMessage(kids[0], S[0])
 	case "withmsgf":
